@@ -256,9 +256,39 @@ func c08SendFail() [][]string {
 	return cases
 }
 
+// c08SelfEnd: the receiver of one incarnation ends on its own (op `selfend`, model action `selfEnd`) while another
+// incarnation of the same shard is held at one of the schedule points or starts afterwards, in every order
+func c08SelfEnd(points []string) [][]string {
+	var cases [][]string
+	for _, pt := range points {
+		for _, victim := range []int{0, 1} {
+			for _, late := range []bool{false, true} {
+				ops := []string{"open 101", "wm 0 7"}
+				if pt != "" {
+					ops = append(ops, fmt.Sprintf("pause %s 1", pt))
+				}
+				ops = append(ops, "open 101")
+				if late {
+					ops = append(ops, "settle")
+				}
+				ops = append(ops, fmt.Sprintf("selfend %d", victim))
+				if pt != "" {
+					ops = append(ops, fmt.Sprintf("resume %s 1", pt))
+				}
+				ops = append(ops, "settle", "open 201", fmt.Sprintf("selfend %d", 1-victim), "settle", "end")
+				cases = append(cases, ops)
+			}
+		}
+	}
+	cases = append(cases, []string{"open 101", "selfend 0", "settle", "open 101", "selfend 1", "selfend 1", "end"},
+		[]string{"open 101", "open 201", "wm 0 10", "selfend 0", "settle", "wm 1 12", "selfend 1", "end"})
+	return cases
+}
+
 func genC08(e *Env) [][]string {
 	var cases [][]string
 	cases = append(cases, c08SendFail()...)
+	cases = append(cases, c08SelfEnd(c08QuickPoints)...)
 	pts := c08QuickPoints
 	gap := c08ReplayGap()
 	e.Stats["replay_gap_family"] = len(gap)
